@@ -45,8 +45,10 @@ func checkURIParse(w *core.Worker, u []byte) (accepted bool) {
 	pan, pmsg, _ := core.Guard(func() { e, n = sipsp.ParseURI(u, &p) })
 	w.Eval(1)
 	if pan {
-		w.Inc("panicked(left to C04)")
-		_ = pmsg
+		// neither accepted nor "rejected with an error position inside the input"
+		w.Fail("no-verdict-panic", func() *core.Violation {
+			return core.V(fmt.Sprintf("ParseURI(%q) did not return a verdict: panic %s", u, pmsg), u, nil)
+		})
 		return false
 	}
 	fail := func(cls, what string) {
@@ -220,6 +222,21 @@ func RunC14(r *core.Run) {
 	})
 	st.Exhaustive = true
 	st.Space = es2.Desc() + fmt.Sprintf(" after each of %v", schemeVariants[3:])
+	// very short inputs, with and without a complete scheme
+	esS := NewEnum("sipSIPtel:@a", 5)
+	st = r.Stage("enum/short-inputs", esS.Size(), func(w *core.Worker, idx int64) {
+		s := sc(w)
+		s.buf = esS.appendStr(s.buf[:0], idx)
+		if checkURIParse(w, s.buf) {
+			w.NontrivialEnum()
+			w.Inc("accepted")
+		}
+		if len(s.buf) <= 5 {
+			w.NontrivialEnum()
+		}
+	})
+	st.Exhaustive = true
+	st.Space = esS.Desc() + " (no scheme prefix added)"
 	r.Stage("generated+mutated", r.Pick(1500000, 30000000), func(w *core.Worker, idx int64) {
 		rr := core.NewRand(r.Seed, 0xC14, 3, uint64(idx))
 		var u []byte
